@@ -14,10 +14,10 @@
   Not expressible in the machine: the *text* of the refusal error (“names every requester involved”) —
   the machine only has the kind of an exception (`Kind.err`, an ordinary error), not its message.
 -/
-import Simpleline.Lemmas.InputFlightInv
-import Simpleline.Lemmas.InputHandoff
+import Simpleline.Lemmas.InputC18
 
 namespace Simpleline
+open Input
 
 /-! ### 1. the pipeline invariants -/
 
@@ -111,26 +111,276 @@ theorem C18_handlers_registered_once (P : Prog) (c0 c : Cfg) (h0 : Started c0) (
 /-! ### 2./3. asking for input: refusal, acceptance, one reader -/
 
 /-- **Refusal.** Asking while another request is outstanding, by a handler that did not opt out of the
-check, raises an ordinary error from a configuration in which the refused request is forgotten again:
-the request stack is the old one, nothing was printed, no reader was started, the busy flag is
-untouched. (The request stays in the list of all requests ever made; the handler was reset.) -/
+check, raises an ordinary error (`KeyError`) from a configuration in which the refused request is
+forgotten again: the request stack is the old one, nothing was printed, no reader was started, the busy
+flag, the loop state and the history are untouched (the handler object was reset and the request is
+remembered in the list of all requests ever made — nothing refers to it). -/
 theorem C18_refuse (c : Cfg) (ih : Nat) (requester : Src) (text : Str)
     (hs : c.A.inputStack ≠ []) (hk : (c.A.ihs.getD ih default).skip = false) :
     ∃ c1 : Cfg, startRequest c ih requester text = c1.raise .err ∧
       c1.A.inputStack = c.A.inputStack ∧ c1.A.out = c.A.out ∧ c1.A.readers = c.A.readers ∧
-      c1.A.processing = c.A.processing ∧ c1.code = c.code ∧ c1.L = c.L ∧ c1.tr = c.tr ∧ c1.log = c.log := by
-  refine ⟨{ c with A := reqRecorded c.A ih requester text }, ?_, rfl, rfl, rfl, rfl, rfl, rfl, rfl, rfl⟩
-  rw [startRequest_eq, if_pos ⟨hs, hk⟩]
+      c1.A.processing = c.A.processing ∧ c1.code = c.code ∧ c1.L = c.L ∧ c1.tr = c.tr ∧ c1.log = c.log :=
+  ⟨_, startRequest_refuse c ih requester text hs hk, rfl, rfl, rfl, rfl, rfl, rfl, rfl, rfl⟩
 
-/-- … and wherever the error is caught (or if it ends the run), stack, output, readers and busy flag are
-still the old ones -/
-theorem C18_refuse_final (c : Cfg) (ih : Nat) (requester : Src) (text : Str)
+/-- … and wherever that error is caught, or if it ends the run, stack, readers, busy flag and output are
+still the old ones: a refused request leaves no trace in the input subsystem -/
+theorem C18_refuse_leaves_no_trace (c : Cfg) (ih : Nat) (requester : Src) (text : Str)
     (hs : c.A.inputStack ≠ []) (hk : (c.A.ihs.getD ih default).skip = false) :
     (final (startRequest c ih requester text)).A.inputStack = c.A.inputStack ∧
     (final (startRequest c ih requester text)).A.out = c.A.out ∧
     (final (startRequest c ih requester text)).A.readers = c.A.readers ∧
     (final (startRequest c ih requester text)).A.processing = c.A.processing := by
-  obtain ⟨c1, h1, h2, h3, h4, h5, _⟩ := C18_refuse c ih requester text hs hs.elim.elim hk |>.elim id
-  all_goals sorry
+  rw [startRequest_refuse c ih requester text hs hk]
+  simp only [raise_A]
+  exact ⟨rfl, rfl, rfl, rfl⟩
+
+/-- **Acceptance and the one reader.** With no request outstanding, or with the check bypassed, the request
+is not refused: it is pushed on the stack (newest last), its prompt is printed, the subsystem is busy, and
+a reader thread is started **iff** none was running (`processing = false`); otherwise only the (newest)
+prompt is printed again and the running reader will serve the newest request. -/
+theorem C18_accept (c : Cfg) (ih : Nat) (requester : Src) (text : Str)
+    (h : c.A.inputStack = [] ∨ (c.A.ihs.getD ih default).skip = true) :
+    ∃ c', startRequest c ih requester text = .ok c' ∧
+      c'.A.inputStack = c.A.inputStack ++ [c.A.reqs.length] ∧
+      c'.A.reqs = c.A.reqs ++ [{ ih := ih, requester := requester, text := text }] ∧
+      c'.A.out = c.A.out ++ [text] ∧ c'.A.processing = true ∧
+      c'.A.readers = (if c.A.processing then c.A.readers else c.A.readers ++ [c.A.reqs.length]) ∧
+      c'.code = c.code ∧ c'.L = c.L ∧ c'.tr = c.tr ∧ c'.log = c.log :=
+  ⟨_, startRequest_accept c ih requester text h, rfl, rfl, rfl, rfl, rfl, rfl, rfl, rfl, rfl⟩
+
+/-- `startRequest` raises exactly in the refusal case -/
+theorem C18_refuse_iff (c : Cfg) (ih : Nat) (requester : Src) (text : Str) :
+    (∃ c', startRequest c ih requester text = .ok c') ↔
+      (c.A.inputStack = [] ∨ (c.A.ihs.getD ih default).skip = true) ∨
+      ∃ c', ({ c with A := reqRecorded c.A ih requester text } : Cfg).raise .err = .ok c' := by
+  by_cases h : c.A.inputStack = [] ∨ (c.A.ihs.getD ih default).skip = true
+  · exact ⟨fun _ => Or.inl h, fun _ => ⟨_, startRequest_accept c ih requester text h⟩⟩
+  · have h' : c.A.inputStack ≠ [] ∧ (c.A.ihs.getD ih default).skip = false := by
+      refine ⟨fun e => h (Or.inl e), ?_⟩
+      cases hk : (c.A.ihs.getD ih default).skip
+      · rfl
+      · exact absurd (Or.inr hk) h
+    rw [startRequest_refuse c ih requester text h'.1 h'.2]
+    exact ⟨fun h1 => Or.inr h1, fun h1 => h1.resolve_left h⟩
+
+/-- A screen asking for input (`getInput2`, after a prompt that is not `None`) and a blocking request
+(`blockingInput`, i.e. `get_user_input`/the pager's “press ENTER”) both create a fresh `InputHandler`
+(with / without the screen's one-shot callback, `skip` = the screen's opt-out) and call `startRequest`
+for it: the outcome is described by `Requested`. -/
+theorem C18_screen_request (P : Prog) (c : Cfg) (scr : Nat) (args : Option Nat) (rest : List Instr)
+    (hc : c.code = .getInput2 scr args :: rest) (hp : c.retPromptNone = false) :
+    Requested c (final (step P c)) (freshIH (.scr scr) (P.spec scr).skipCheck (some scr))
+      (promptText P defaultPrompt) := by
+  rw [step_getInput2_some P c scr args rest hc hp]
+  exact Requested_congr (requested_of_newIH _ _ _ _ _ _) rfl rfl rfl rfl rfl rfl rfl rfl rfl
+
+theorem C18_blocking_request (P : Prog) (c : Cfg) (scr : Nat) (cont : Bool) (rest : List Instr)
+    (hc : c.code = .blockingInput scr cont :: rest) :
+    Requested c (final (step P c)) (freshIH (.im scr) (P.spec scr).skipCheck none) (blockingText P cont) := by
+  rw [step_blockingInput P c scr cont rest hc]
+  exact Requested_congr (requested_of_newIH _ _ _ _ _ _) rfl rfl rfl rfl rfl rfl rfl rfl rfl
+
+/-! ### 4. the hand-off -/
+
+/-- **Hand-off.** When the thread manager's handler runs for the typed line `s.line` with the request stack
+`rs ++ [r]`, the transition enqueues exactly the signals `handoffSigs` — in that order, each by
+`enqueue_signal` (`enqEvent`: an `.enq` into the level its source routes to, or `.dropped` after
+force-quit) — and nothing else happens in the history; afterwards the stack is empty and the subsystem
+idle; the log, and every other part of the application state, is unchanged. -/
+theorem C18_handoff (P : Prog) (c : Cfg) (s : Sig) (rest : List Instr) (rs : List Nat) (r : Nat)
+    (hc : c.code = .inputReceived s :: rest) (hst : c.A.inputStack = rs ++ [r]) :
+    ∃ c', step P c = .ok c' ∧
+      (newTr c c').reverse = (handoffSigs c.A.reqs rs r s.line (c.nextSid + 1)).map (enqEvent c) ∧
+      c'.L = (enqueueAll c (handoffSigs c.A.reqs rs r s.line (c.nextSid + 1))).L ∧
+      c'.A = { c.A with inputStack := [], processing := false } ∧ c'.code = rest ∧ c'.log = c.log :=
+  handoff_history P c s rest rs r hc hst
+
+/-- The signals of a hand-off: exactly `1 + rs.length`, all `InputReadySignal`s of priority 0; the first
+is the successful one for the newest request `r` — addressed to its requester and its handler, carrying
+the line unmodified —, then for the `i`-th earlier request, in order, one failed signal addressed to
+that request's requester and handler. -/
+theorem C18_handoff_signals (reqs : List Request) (rs : List Nat) (r : Nat) (line : Str) (sid : Nat) :
+    (handoffSigs reqs rs r line sid).length = 1 + rs.length ∧
+    (∀ x ∈ handoffSigs reqs rs r line sid, x.cls = .inputReady ∧ x.prio = 0) ∧
+    (handoffSigs reqs rs r line sid)[0]? = some (okSig reqs r line sid) ∧
+    (∀ i, (hi : i < rs.length) →
+      (handoffSigs reqs rs r line sid)[i + 1]? = some (failSig reqs rs[i] (sid + 1 + i))) :=
+  handoffSigs_spec reqs rs r line sid
+
+/-- `okSig` / `failSig` spelled out -/
+theorem C18_okSig (reqs : List Request) (r : Nat) (line : Str) (sid : Nat) :
+    (okSig reqs r line sid).line = line ∧ (okSig reqs r line sid).ok = true ∧
+    (okSig reqs r line sid).ih = (reqs.getD r default).ih ∧
+    (okSig reqs r line sid).src = (reqs.getD r default).requester := ⟨rfl, rfl, rfl, rfl⟩
+
+theorem C18_failSig (reqs : List Request) (t : Nat) (sid : Nat) :
+    (failSig reqs t sid).line = [] ∧ (failSig reqs t sid).ok = false ∧
+    (failSig reqs t sid).ih = (reqs.getD t default).ih ∧
+    (failSig reqs t sid).src = (reqs.getD t default).requester := ⟨rfl, rfl, rfl, rfl⟩
+
+/-- **Each requester is told exactly once.** In a reachable configuration the signals of a hand-off are
+addressed to pairwise different `InputHandler`s: the newest requester gets the one successful signal and
+no failed one, every earlier requester gets exactly one failed signal. -/
+theorem C18_handoff_one_signal_each (P : Prog) (c0 c : Cfg) (h0 : Started c0) (hr : Reach P c0 c)
+    (rs : List Nat) (r : Nat) (line : Str) (sid : Nat) (hst : c.A.inputStack = rs ++ [r]) :
+    ((handoffSigs c.A.reqs rs r line sid).map (·.ih)).Nodup :=
+  handoffSigs_handlers_nodup (refsInv_reach h0 hr) rs r line sid hst
+
+/-- **Idle again.** After the hand-off no request is outstanding and the subsystem is not busy, so the
+next request — checked or not — is accepted and starts a reader thread of its own. -/
+theorem C18_idle_after_handoff (P : Prog) (c : Cfg) (s : Sig) (rest : List Instr) (rs : List Nat) (r : Nat)
+    (hc : c.code = .inputReceived s :: rest) (hst : c.A.inputStack = rs ++ [r])
+    (ih : Nat) (requester : Src) (text : Str) :
+    ∃ c' c'', step P c = .ok c' ∧ startRequest c' ih requester text = .ok c'' ∧
+      c''.A.inputStack = [c'.A.reqs.length] ∧ c''.A.readers = c'.A.readers ++ [c'.A.reqs.length] ∧
+      c''.A.processing = true := by
+  obtain ⟨c', h1, _, _, h4, _⟩ := handoff_history P c s rest rs r hc hst
+  obtain ⟨c'', h5, h6, _, _, h7, h8, _⟩ := C18_accept c' ih requester text (Or.inl (by rw [h4]))
+  refine ⟨c', c'', h1, h5, by rw [h6, h4]; rfl, by rw [h8, h4]; rfl, h7⟩
+
+/-! ### 5. the handler's result -/
+
+/-- an `InputReadySignal` for another handler changes nothing -/
+theorem C18_handler_ignores_others (P : Prog) (c : Cfg) (n : Nat) (s : Sig) (rest : List Instr)
+    (hc : c.code = .inputReady n s :: rest) (hs : s.ih ≠ n) : step P c = .ok { c with code := rest } := by
+  rw [step_inputReady P c n s rest hc, if_pos hs]
+
+/-- **The handler's result.** For a signal addressed to handler `n`: `received` becomes true and the success
+flag is the signal's; on success the value is the signal's line, unmodified, and the one-shot callback,
+if there is one, is invoked exactly once (`processInput scr s.line` is the next instruction) and cleared,
+so that no later signal can invoke it again; on failure value and callback are untouched and nothing is
+invoked. No other handler, and nothing in the loop state or the history, changes. -/
+theorem C18_handler_result (P : Prog) (c : Cfg) (n : Nat) (s : Sig) (rest : List Instr)
+    (hc : c.code = .inputReady n s :: rest) (hn : n < c.A.ihs.length) (hs : s.ih = n) :
+    ∃ c', step P c = .ok c' ∧
+      (c'.A.ihs.getD n default).received = true ∧ (c'.A.ihs.getD n default).ok = s.ok ∧
+      (c'.A.ihs.getD n default).source = (c.A.ihs.getD n default).source ∧
+      (∀ m, m ≠ n → c'.A.ihs.getD m default = c.A.ihs.getD m default) ∧
+      c'.log = c.log ∧ c'.L = c.L ∧ c'.tr = c.tr ∧
+      (s.ok = true →
+        (c'.A.ihs.getD n default).value = some s.line ∧ (c'.A.ihs.getD n default).cb = none ∧
+        c'.code = (match (c.A.ihs.getD n default).cb with
+                   | some scr => [.processInput scr s.line]
+                   | none => []) ++ rest) ∧
+      (s.ok = false →
+        (c'.A.ihs.getD n default).value = (c.A.ihs.getD n default).value ∧
+        (c'.A.ihs.getD n default).cb = (c.A.ihs.getD n default).cb ∧ c'.code = rest) :=
+  inputReady_result P c n s rest hc hn hs
+
+/-- the one-shot callback of an existing handler is never armed again, by any transition of any
+configuration: once used (or absent) it stays `none` -/
+theorem C18_callback_one_shot (P : Prog) (c c' : Cfg) (ht : Trans P c c') (n : Nat) (hn : n < c.A.ihs.length)
+    (scr : Nat) (h1 : (c'.A.ihs.getD n default).cb = some scr) : (c.A.ihs.getD n default).cb = some scr := by
+  refine cb_never_rearmed ?_ n hn scr h1
+  cases ht with
+  | step h => have := step_inpTrans P c; rwa [h] at this
+  | deliver h => exact .frame (InpFrame_deliver (Same_refl c) h)
+  | halt h => have := step_inpTrans P c; rwa [h] at this
+
+/-- a handler that has not received a result holds no value (`get_input` clears both) -/
+theorem C18_no_value_before_result (P : Prog) (c0 c : Cfg) (h0 : Started c0) (hr : Reach P c0 c) (n : Nat)
+    (h : IHandler) (hn : c.A.ihs[n]? = some h) (hrcv : h.received = false) : h.value = none :=
+  (cbInv_reach h0 hr).unreceived n h hn hrcv
+
+/-! ### 6. the blocking wait -/
+
+/-- **The wait loop.** `wait_on_input` returns (goes on with the instruction after it) iff its own handler has
+received a result; otherwise it keeps processing signals until the next `InputReadySignal` has been
+dispatched (`procWait .inputReady`) and looks again — or, if the loop was told to stop, can never return. -/
+theorem C18_wait_step (P : Prog) (c : Cfg) (ih : Nat) (rest : List Instr) (hc : c.code = .waitInput ih :: rest) :
+    step P c =
+      if (c.A.ihs.getD ih default).received then .ok { c with code := rest }
+      else if ¬ c.L.runLoop then .error (.livelock, { c with code := rest })
+      else .ok { c with code := .procWait .inputReady :: .waitInput ih :: rest } :=
+  step_waitInput P c ih rest hc
+
+/-- the instruction after the wait is reached by the wait's own step only when the result is there -/
+theorem C18_wait_returns_iff_received (P : Prog) (c c' : Cfg) (ih : Nat) (rest : List Instr)
+    (hc : c.code = .waitInput ih :: rest) (hst : step P c = .ok c') :
+    c'.code = rest ↔ (c.A.ihs.getD ih default).received = true := by
+  rw [step_waitInput P c ih rest hc] at hst
+  split at hst
+  · cases hst; exact ⟨fun _ => ‹_›, fun _ => rfl⟩
+  · split at hst
+    · cases hst
+    · cases hst
+      refine ⟨fun h => ?_, fun h => absurd h ‹_›⟩
+      have := congrArg List.length h
+      simp at this
+      omega
+
+/-- **Only the handler's own answer sets `received`.** In any transition (step, delivery, halting step) of any
+configuration, if handler `n` had not received a result before and has one afterwards, the transition was the
+`inputReady n s` step for a signal `s` addressed to `n`, and success flag and value are that signal's
+(value untouched on failure: `none`, by `C18_no_value_before_result`). Together with `C18_wait_step`: a
+blocking wait returns only after its own request was answered or failed, and `value`/`ok` then are as the
+answering signal set them. -/
+theorem C18_received_only_by_own_signal (P : Prog) (c c' : Cfg) (ht : Trans P c c') (n : Nat)
+    (hb : (c.A.ihs.getD n default).received = false) (ha : (c'.A.ihs.getD n default).received = true) :
+    ∃ s rest, c.code = .inputReady n s :: rest ∧ s.ih = n ∧ n < c.A.ihs.length ∧
+      (c'.A.ihs.getD n default).ok = s.ok ∧
+      (s.ok = true → (c'.A.ihs.getD n default).value = some s.line) ∧
+      (s.ok = false → (c'.A.ihs.getD n default).value = (c.A.ihs.getD n default).value) := by
+  refine received_set_only_by_own_signal ?_ n hb ha
+  cases ht with
+  | step h => have := step_inpTrans P c; rwa [h] at this
+  | deliver h => exact .frame (InpFrame_deliver (Same_refl c) h)
+  | halt h => have := step_inpTrans P c; rwa [h] at this
+
+/-! ### non-vacuity, and the hypotheses are needed -/
+
+/-- one screen (`skipCheck` as given) that asks for input; a handler for a user signal calls the blocking
+`get_user_input` while the screen's request is outstanding; one line is typed -/
+def C18_exP (skip : Bool) : Prog :=
+  { cc := asciiClass, screens := [{ name := ['A'], skipCheck := skip }],
+    handlerScript := fun hid n => if hid = 0 ∧ n = 0 then [.getUserInput 0 false] else [] }
+
+def C18_exC : Cfg :=
+  initCfg [.schedule 0 none, .enq (.user 0) 0 .none 5] [(.user 0, .user 0, none)] none ["secret".toList]
+
+/-- with the check bypassed: the blocking (newest) request gets the line as a successful result, the screen's
+(earlier) request is told that it failed — its callback is not invoked, no `input` event —, and the subsystem
+is idle again; the run then waits for events that never come -/
+example :
+    let c := (runFuel (C18_exP true) 400 C18_exC).1
+    (runFuel (C18_exP true) 400 C18_exC).2 = .blocked ∧
+    c.A.ihs.map (fun h => (h.source, h.received, h.ok, h.value)) =
+      [(.scr 0, true, false, none), (.im 0, true, true, some "secret".toList)] ∧
+    c.A.inputStack = [] ∧ c.A.processing = false ∧ c.A.readers = [] ∧
+    inputLines c.log = [] ∧ readLines c.log = ["secret".toList] := by
+  decide +kernel
+
+/-- without the bypass the second request is refused: the error leaves the handler, is turned into an
+`ExceptionSignal`, and (no exception handler registered) kills the application; the screen's request is still the
+only one on the stack and its reader still the only reader -/
+example :
+    let c := (runFuel (C18_exP false) 400 C18_exC).1
+    (runFuel (C18_exP false) 400 C18_exC).2 = .killed 1 ∧
+    c.A.inputStack = [0] ∧ c.A.readers = [0] ∧ c.A.processing = true ∧ c.A.reqs.length = 2 := by
+  decide +kernel
+
+/-- `UserHandlers` and `NoForge` hold for these runs -/
+example : UserHandlers C18_exC ∧ C18_exC.NoForge := by decide
+
+/-- **`NoForge` is needed** for “only one reader thread at a time”: an application that enqueues an
+`InputReceivedSignal` of its own while the screen's reader is waiting makes the thread manager hand off a line
+that was never typed and go idle although the reader still exists; the screen's next request starts a second
+reader. -/
+def C18_forgeP : Prog := { cc := asciiClass, screens := [{ name := ['A'] }] }
+def C18_forgeC : Cfg := initCfg [.schedule 0 none, .enq .inputReceived 0 .none 7] [] none []
+
+theorem C18_one_reader_needs_NoForge :
+    ∃ c, Started C18_forgeC ∧ UserHandlers C18_forgeC ∧ Reach C18_forgeP C18_forgeC c ∧ c.A.readers.length = 2 :=
+  ⟨(runFuel C18_forgeP 60 C18_forgeC).1, ⟨_, _, _, _, rfl⟩, by decide,
+    reach_runFuel _ _ _ _ .init, by decide +kernel⟩
+
+/-- **`UserHandlers` is needed** as well: registering the thread manager's private handler for a signal class of
+the application has the same effect. -/
+def C18_regC : Cfg := initCfg [.schedule 0 none, .enq (.user 0) 0 .none 7] [(.user 0, .itm, none)] none []
+
+theorem C18_one_reader_needs_UserHandlers :
+    ∃ c, Started C18_regC ∧ C18_regC.NoForge ∧ Reach C18_forgeP C18_regC c ∧ c.A.readers.length = 2 :=
+  ⟨(runFuel C18_forgeP 60 C18_regC).1, ⟨_, _, _, _, rfl⟩, by decide, reach_runFuel _ _ _ _ .init,
+    by decide +kernel⟩
 
 end Simpleline
